@@ -38,6 +38,7 @@ type vfC16Sub struct {
 	ServerTF *vfTF
 	ClientTF *vfTF // mode 0 only
 	TFOnce   bool  // map: send the client filter only with the first request of a handshake (the server must inherit it)
+	SrvRefresh bool // map: the subscription expires after 2 s and is refreshed by the server-side OnSubRefresh path (no client command)
 }
 
 type vfC16Step struct {
@@ -83,7 +84,7 @@ func vfC16Writer(s vfC16Step) string {
 	}
 	f := ""
 	if s.Fault != 0 {
-		f = []string{"", " DROP", " DUP"}[s.Fault]
+		f = []string{"", " DROP", " DUP", " INJECTED-DELIVERY-WITH-OFFSET"}[s.Fault]
 	}
 	return fmt.Sprintf("pub(k%d %s%s)", s.Key, vfTagsStr(s.Tags), f)
 }
@@ -131,7 +132,7 @@ func (s vfC16Step) str(kind int) string {
 func (c vfC16Case) String() string {
 	subs := make([]string, len(c.Subs))
 	for i, s := range c.Subs {
-		subs[i] = fmt.Sprintf("s%d{%s mode=%d serverTF=%s clientTF=%s tfOnce=%v}", i, s.Proto, s.Mode, s.ServerTF, s.ClientTF, s.TFOnce)
+		subs[i] = fmt.Sprintf("s%d{%s mode=%d serverTF=%s clientTF=%s tfOnce=%v srvRefresh=%v}", i, s.Proto, s.Mode, s.ServerTF, s.ClientTF, s.TFOnce, s.SrvRefresh)
 	}
 	st := make([]string, len(c.Steps))
 	for i, s := range c.Steps {
@@ -180,11 +181,11 @@ func vfC16GenStream(rt *rapid.T) vfC16Case {
 	c := vfC16Case{Kind: 0}
 	c.Hist = rapid.SampledFrom([]int{0, 2, 4, 8, 8}).Draw(rt, "hist")
 	if c.Hist > 0 {
-		switch rapid.IntRange(0, 5).Draw(rt, "posmode") {
+		switch rapid.IntRange(0, 7).Draw(rt, "posmode") {
 		case 0:
 		case 1:
 			c.Positioned = true
-		case 2, 3:
+		case 2, 3, 4, 5:
 			c.Positioned, c.Recoverable = true, true
 		default:
 			c.Positioned, c.Recoverable, c.Cache = rapid.Bool().Draw(rt, "cpos"), true, true
@@ -196,7 +197,7 @@ func vfC16GenStream(rt *rapid.T) vfC16Case {
 	for i := 0; i < ns; i++ {
 		c.Subs = append(c.Subs, vfC16GenSub(rt, i, true))
 	}
-	np := rapid.IntRange(0, 5).Draw(rt, "npre")
+	np := rapid.IntRange(0, 6).Draw(rt, "npre")
 	for i := 0; i < np; i++ {
 		c.PreTags = append(c.PreTags, vfTagsGen(rt, "pre"))
 	}
@@ -217,7 +218,7 @@ func vfC16GenStream(rt *rapid.T) vfC16Case {
 				s.Conn = i
 			}
 			s.Recover = rapid.IntRange(0, 3).Draw(rt, "recover") > 0
-			s.OffPick = rapid.SampledFrom([]int{-1, -1, 0, 0, 1, 2, 3, 4, 5, 6, 7}).Draw(rt, "offPick")
+			s.OffPick = rapid.SampledFrom([]int{-1, 0, 0, 0, 1, 1, 2, 2, 3, 4, 5, 6, 7}).Draw(rt, "offPick")
 			s.Gate = rapid.IntRange(0, 2).Draw(rt, "gate") == 0
 		case 2:
 			s.Conn = rapid.IntRange(0, ns-1).Draw(rt, "conn")
@@ -341,8 +342,11 @@ type vfC16Subject struct {
 	cmdCh      map[uint32]string
 	newTF      *vfTF // filter the next sub refresh returns
 	adm, exc   map[string]int
-	// expectation after a sub refresh on a map subscription
-	expectInvalidated bool
+	srvRefreshCalls int
+	// map client: position held by the protocol-following client
+	hasPos   bool
+	posOff   uint64
+	posEpoch string
 }
 
 func (s *vfC16Subject) clientTF() *vfTF {
@@ -727,15 +731,803 @@ func vfC16RunStream(t *testing.T, cs vfC16Case, out *vfC16Out, isKnown func(stri
 	})
 }
 
-func vfC16Unused() { _ = context.Background }
+// ---------------------------------------------------------------------------------------------------------------------
+// map kind
+
+// vfC16MapBroker wraps the memory map broker: PUB/SUB faults on its deliveries and gates inside the live transition.
+type vfC16MapBroker struct {
+	MapBroker
+	h     BrokerEventHandler
+	fault func() int // 0 deliver, 1 drop, 2 dup
+	hook  func(point string)
+}
+
+func (b *vfC16MapBroker) Close(ctx context.Context) error {
+	if c, ok := b.MapBroker.(Closer); ok {
+		return c.Close(ctx)
+	}
+	return nil
+}
+
+func (b *vfC16MapBroker) RegisterEventHandler(h BrokerEventHandler) error {
+	b.h = h
+	return b.MapBroker.RegisterEventHandler(b)
+}
+
+func (b *vfC16MapBroker) HandlePublication(ch string, pub *Publication, sp StreamPosition, useDelta bool, prevPub *Publication) error {
+	f := 0
+	if b.fault != nil {
+		f = b.fault()
+	}
+	switch f {
+	case 1:
+		return nil
+	case 2:
+		_ = b.h.HandlePublication(ch, pub, sp, useDelta, prevPub)
+	}
+	return b.h.HandlePublication(ch, pub, sp, useDelta, prevPub)
+}
+
+func (b *vfC16MapBroker) HandleJoin(ch string, info *ClientInfo) error  { return b.h.HandleJoin(ch, info) }
+func (b *vfC16MapBroker) HandleLeave(ch string, info *ClientInfo) error { return b.h.HandleLeave(ch, info) }
+
+func (b *vfC16MapBroker) Subscribe(chs ...string) error {
+	err := b.MapBroker.Subscribe(chs...)
+	if b.hook != nil {
+		b.hook("subscribe_after")
+	}
+	return err
+}
+
+func (b *vfC16MapBroker) ReadStream(ctx context.Context, ch string, opts MapReadStreamOptions) (MapStreamResult, error) {
+	// the live transition reads with limit = LiveTransitionMaxPublicationLimit+1 (1001 here); pages use the page size
+	transition := opts.Filter.Limit > 100 && opts.Filter.Since != nil
+	if transition && b.hook != nil {
+		b.hook("transition_read_before")
+	}
+	r, err := b.MapBroker.ReadStream(ctx, ch, opts)
+	if transition && b.hook != nil {
+		b.hook("transition_read_after")
+	}
+	return r, err
+}
+
+func vfC16GenWriter(rt *rapid.T, l string, allowFault bool) vfC16Step {
+	s := vfC16Step{Kind: 0}
+	s.Key = rapid.IntRange(0, 4).Draw(rt, l+"key")
+	s.Remove = rapid.IntRange(0, 5).Draw(rt, l+"rm") == 0
+	s.Tags = vfTagsGen(rt, l+"tags")
+	if s.Remove && rapid.Bool().Draw(rt, l+"rmInherit") {
+		s.Tags = nil // removal inherits the stored tags of the entry
+	}
+	if allowFault {
+		s.Fault = rapid.SampledFrom([]int{0, 0, 0, 0, 0, 0, 0, 0, 0, 0, 0, 1, 2}).Draw(rt, l+"fault")
+	}
+	return s
+}
+
+func vfC16GenMap(rt *rapid.T) vfC16Case {
+	c := vfC16Case{Kind: 1}
+	c.MapMode = rapid.SampledFrom([]int{1, 1, 2, 2, 2, 3, 3}).Draw(rt, "mapmode")
+	c.StreamSz = rapid.SampledFrom([]int{6, 100, 100}).Draw(rt, "streamsz")
+	ns := rapid.IntRange(1, 2).Draw(rt, "nsubs")
+	for i := 0; i < ns; i++ {
+		sub := vfC16GenSub(rt, i, false)
+		sub.SrvRefresh = rapid.IntRange(0, 3).Draw(rt, "srvRefresh") == 0
+		c.Subs = append(c.Subs, sub)
+	}
+	np := rapid.IntRange(0, 7).Draw(rt, "npre")
+	for i := 0; i < np; i++ {
+		c.PreTags = append(c.PreTags, vfTagsGen(rt, "pre"))
+		c.PreKeys = append(c.PreKeys, rapid.IntRange(0, 4).Draw(rt, "prekey"))
+	}
+	n := rapid.IntRange(3, 14).Draw(rt, "nsteps")
+	for i := 0; i < n; i++ {
+		k := rapid.SampledFrom([]int{0, 0, 0, 0, 0, 1, 1, 1, 2, 3}).Draw(rt, "kind")
+		if i < ns {
+			k = 1
+		}
+		var s vfC16Step
+		switch k {
+		case 0:
+			s = vfC16GenWriter(rt, "w", true)
+		case 1:
+			s = vfC16Step{Kind: 1, Conn: rapid.IntRange(0, ns-1).Draw(rt, "conn")}
+			if i < ns {
+				s.Conn = i
+			}
+			s.Join = rapid.SampledFrom([]int{0, 0, 0, 1, 1, 2, 2}).Draw(rt, "join")
+			if i < ns {
+				s.Join = 0
+			}
+			s.Limit = rapid.SampledFrom([]int{1, 1, 2, 3, 100}).Draw(rt, "limit")
+			s.OffPick = rapid.SampledFrom([]int{-1, -1, 0, 1, 2, 3, 5}).Draw(rt, "offPick")
+			nb := rapid.IntRange(0, 4).Draw(rt, "nbetween")
+			for j := 0; j < nb; j++ {
+				var ops []vfC16Step
+				no := rapid.IntRange(0, 3).Draw(rt, "nbops")
+				for q := 0; q < no; q++ {
+					ops = append(ops, vfC16GenWriter(rt, "b", false))
+				}
+				s.Between = append(s.Between, ops)
+			}
+			s.GateAt = rapid.SampledFrom([]int{0, 0, 1, 2, 3}).Draw(rt, "gateAt")
+			if c.MapMode == 1 && s.GateAt != 0 {
+				s.GateAt = 3
+			}
+			if s.GateAt != 0 {
+				nd := rapid.IntRange(1, 4).Draw(rt, "nduring")
+				for q := 0; q < nd; q++ {
+					op := vfC16GenWriter(rt, "d", false)
+					if c.MapMode == 1 && !op.Remove {
+						// streamless: a broker delivery that carries an offset is what lands in the recovery buffer
+						op.Fault = rapid.SampledFrom([]int{0, 3, 3, 3}).Draw(rt, "inject")
+					}
+					s.During = append(s.During, op)
+				}
+			}
+		case 2:
+			s = vfC16Step{Kind: 2, Conn: rapid.IntRange(0, ns-1).Draw(rt, "conn")}
+		default:
+			s = vfC16Step{Kind: 3, Conn: rapid.IntRange(0, ns-1).Draw(rt, "conn"), NewTF: vfTFGen(rt, "ntf", 1)}
+		}
+		c.Steps = append(c.Steps, s)
+	}
+	return c
+}
+
+func vfC16RunMap(t *testing.T, cs vfC16Case, out *vfC16Out, isKnown func(string) bool) string {
+	return vfBubble(t, func() string {
+		ch := "m"
+		ctx := context.Background()
+		mode := MapMode(cs.MapMode)
+		cfg := Config{ClientPresenceUpdateInterval: time.Second, ClientExpiredSubCloseDelay: time.Second}
+		cfg.Map.GetMapChannelOptions = func(string) MapChannelOptions {
+			o := MapChannelOptions{Mode: mode, MinPageSize: 1, DefaultPageSize: 2, MaxPageSize: 1000}
+			if mode.HasExpiry() {
+				o.KeyTTL = 10 * time.Minute
+			}
+			if mode.HasStream() {
+				o.StreamSize = cs.StreamSz
+				o.StreamTTL = 10 * time.Minute
+			}
+			return o
+		}
+		var proxy *vfC16MapBroker
+		w, err := vfNewWorld(cfg, func(w *vfWorld) {
+			mb, err := NewMemoryMapBroker(w.node, MemoryMapBrokerConfig{})
+			if err != nil {
+				panic(err)
+			}
+			proxy = &vfC16MapBroker{MapBroker: mb}
+			w.node.SetMapBroker(proxy)
+		})
+		if err != nil {
+			return "infra: " + err.Error()
+		}
+		defer w.Close()
+		time.Sleep(500 * time.Millisecond)
+		nextFault := 0
+		proxy.fault = func() int { return nextFault }
+		gatePoint := ""
+		proxy.hook = func(point string) {
+			if point == gatePoint {
+				w.Gates.Pass("maptransition")
+			}
+		}
+
+		subjects := make([]*vfC16Subject, len(cs.Subs))
+		byName := map[string]*vfC16Subject{}
+		for i, sc := range cs.Subs {
+			subjects[i] = &vfC16Subject{idx: i, cfg: sc, serverTF: sc.ServerTF, cmdCh: map[uint32]string{}, adm: map[string]int{}, exc: map[string]int{}}
+		}
+		farFuture := func() int64 { return time.Now().Unix() + 3600 }
+		w.OnSubscribe = func(c *vfConn, e SubscribeEvent, cb SubscribeCallback) {
+			s := byName[c.Name]
+			if s == nil {
+				cb(SubscribeReply{}, ErrorPermissionDenied)
+				return
+			}
+			if s.cfg.SrvRefresh {
+				cb(SubscribeReply{Options: SubscribeOptions{Type: e.Type, AllowTagsFilter: true,
+					ServerTagsFilter: s.serverTF.Proto(), ExpireAt: time.Now().Unix() + 2}}, nil)
+				return
+			}
+			cb(SubscribeReply{ClientSideRefresh: true, Options: SubscribeOptions{Type: e.Type, AllowTagsFilter: true,
+				ServerTagsFilter: s.serverTF.Proto(), ExpireAt: farFuture()}}, nil)
+		}
+		w.PerClient = func(c *vfConn, client *Client) {
+			s := byName[c.Name]
+			client.OnSubRefresh(func(e SubRefreshEvent, cb SubRefreshCallback) {
+				if s != nil && !e.ClientSideRefresh {
+					s.srvRefreshCalls++
+				}
+				if s == nil || s.newTF == nil {
+					cb(SubRefreshReply{ExpireAt: farFuture()}, nil)
+					return
+				}
+				cb(SubRefreshReply{ExpireAt: farFuture(), ServerTagsFilter: s.newTF.Proto()}, nil)
+			})
+		}
+
+		// ---- write log -------------------------------------------------------------------------------------------
+		log := make([]vfC16Rec, 0, 256)
+		byID := map[int]*vfC16Rec{}
+		byOff := map[uint64]*vfC16Rec{}
+		lastRemoval := map[string]*vfC16Rec{}
+		stored := map[string]map[string]string{} // key -> stored tags (entry exists)
+		exists := map[string]bool{}
+		var top uint64
+		curEpoch := ""
+		var injOff uint64 = 1000
+		faults := 0
+		hsActive := -1 // subject index whose handshake is in progress
+		hsStart := 0
+		judgeAll := func() string { return "" }
+		write := func(op vfC16Step) string {
+			if len(log) == cap(log) {
+				return ""
+			}
+			key := fmt.Sprintf("k%d", op.Key)
+			rec := vfC16Rec{Key: key, Fault: op.Fault}
+			if op.Remove {
+				if !exists[key] {
+					return ""
+				}
+				rec.Removed = true
+				rec.Tags = stored[key]
+				if op.Tags != nil {
+					rec.Tags = op.Tags
+				}
+				nextFault = op.Fault
+				res, err := w.node.MapRemove(ctx, ch, key, MapRemoveOptions{Tags: op.Tags})
+				nextFault = 0
+				if err != nil {
+					return "infra: MapRemove error: " + err.Error()
+				}
+				if res.Suppressed {
+					return "infra: MapRemove of an existing key suppressed: " + string(res.SuppressReason)
+				}
+				rec.Offset = res.Position.Offset
+				if res.Position.Epoch != "" {
+					curEpoch = res.Position.Epoch
+				}
+				delete(exists, key)
+				delete(stored, key)
+			} else {
+				rec.ID = len(log) + 1
+				rec.Tags = op.Tags
+				data := []byte(fmt.Sprintf(`{"id":%d}`, rec.ID))
+				if op.Fault == 3 {
+					// a broker delivery carrying an offset on a streamless channel (not stored in the broker state)
+					injOff++
+					log = append(log, rec)
+					byID[rec.ID] = &log[len(log)-1]
+					out.label("streamless_delivery_with_offset_injected")
+					_ = w.node.HandlePublication(ch, &Publication{Offset: injOff, Data: data, Tags: op.Tags, Key: key, Time: time.Now().UnixMilli()},
+						StreamPosition{Offset: injOff}, false, nil)
+					vfSettle()
+					for _, s := range subjects {
+						if s.subscribed {
+							s.count("map_live", rec.Tags)
+						} else if s.idx == hsActive {
+							s.count("map_streamless_buffered", rec.Tags)
+						}
+					}
+					return judgeAll()
+				}
+				nextFault = op.Fault
+				res, err := w.node.MapPublish(ctx, ch, key, MapPublishOptions{Data: data, Tags: op.Tags})
+				nextFault = 0
+				if err != nil {
+					return "infra: MapPublish error: " + err.Error()
+				}
+				if res.Suppressed {
+					return "infra: MapPublish suppressed: " + string(res.SuppressReason)
+				}
+				rec.Offset = res.Position.Offset
+				if res.Position.Epoch != "" {
+					curEpoch = res.Position.Epoch
+				}
+				exists[key] = true
+				stored[key] = op.Tags
+			}
+			if op.Fault != 0 {
+				faults++
+			}
+			log = append(log, rec)
+			r := &log[len(log)-1]
+			if r.ID != 0 {
+				byID[r.ID] = r
+			}
+			if mode.HasStream() {
+				byOff[r.Offset] = r
+				top = r.Offset
+			}
+			if r.Removed {
+				lastRemoval[key] = r
+			}
+			vfSettle()
+			if op.Fault != 1 {
+				for _, s := range subjects {
+					if s.subscribed {
+						s.count("map_live", r.Tags)
+					}
+				}
+			}
+			return judgeAll()
+		}
+		for i, tg := range cs.PreTags {
+			if m := write(vfC16Step{Key: cs.PreKeys[i], Tags: tg}); m != "" {
+				return m
+			}
+		}
+
+		// ---- frames: oracle + state tracking ---------------------------------------------------------------------
+		lookup := func(p *protocol.Publication) (*vfC16Rec, string) {
+			if p.Removed {
+				if p.Offset > 0 && mode.HasStream() {
+					r := byOff[p.Offset]
+					if r == nil || !r.Removed || r.Key != p.Key {
+						return nil, fmt.Sprintf("removal of key %s at offset %d matches no removal the harness performed", p.Key, p.Offset)
+					}
+					return r, ""
+				}
+				r := lastRemoval[p.Key]
+				if r == nil {
+					return nil, fmt.Sprintf("removal of key %s that was never removed", p.Key)
+				}
+				return r, ""
+			}
+			id, ok := vfC16PayloadID(p.Data)
+			if !ok {
+				return nil, fmt.Sprintf("publication payload %q carries no id", p.Data)
+			}
+			r := byID[id]
+			if r == nil {
+				return nil, fmt.Sprintf("publication id %d was never published", id)
+			}
+			if r.Key != p.Key {
+				return nil, fmt.Sprintf("publication id %d was published under key %s but arrived with key %s", id, r.Key, p.Key)
+			}
+			return r, ""
+		}
+		judge := func(s *vfC16Subject) string {
+			if s.conn == nil {
+				return ""
+			}
+			frames := s.conn.Frames()
+			for fi := s.seen; fi < len(frames); fi++ {
+				f := frames[fi]
+				if f.Err != nil {
+					return fmt.Sprintf("s%d frame %d undecodable: %v", s.idx, fi, f.Err)
+				}
+				r := f.Reply
+				if r.Unsubscribe != nil {
+					s.subscribed = false
+				}
+				if r.Push != nil && r.Push.Channel == ch && r.Push.Unsubscribe != nil {
+					s.subscribed = false
+				}
+				if r.Push != nil && r.Push.Disconnect != nil {
+					s.subscribed, s.pending, s.dead = false, false, true
+				}
+				for _, sp := range vfC16FramePubs(f, ch, s.cmdCh) {
+					if p := sp.Pub; !p.Removed && p.Key == "" && len(p.Data) == 0 && p.Time == -1 {
+						// the hub's placeholder for a publication the filters excluded (offset only, Time -1) reached the wire
+						key := "C16:streamless-buffered-filter-placeholder-delivered-as-publication"
+						msg := fmt.Sprintf("s%d received the placeholder of a filtered publication (offset %d, no key, no data, time -1) in %s (phase %d); frames: %s",
+							s.idx, p.Offset, sp.Where, sp.Phase, vfC16RenderMap(frames))
+						if isKnown(key) {
+							out.known = append(out.known, key)
+							out.knownEx = msg
+							continue
+						}
+						return "[" + key + "] " + msg
+					}
+					rec, m := lookup(sp.Pub)
+					if rec == nil {
+						return fmt.Sprintf("s%d frame %d (%s): %s; frames: %s", s.idx, fi, sp.Where, m, vfC16RenderMap(frames))
+					}
+					if !s.admits(rec.Tags) {
+						what := fmt.Sprintf("publication id=%d", rec.ID)
+						if rec.Removed {
+							what = "removal"
+						}
+						return fmt.Sprintf("s%d received %s of key %s (offset %d, tags %s) in %s (phase %d) although its filters exclude it (server filter %s, client filter %s); frames: %s",
+							s.idx, what, rec.Key, sp.Pub.Offset, vfTagsStr(rec.Tags), sp.Where, sp.Phase, s.serverTF, s.clientTF(), vfC16RenderMap(frames))
+					}
+					out.label("admitted_publication_delivered")
+					if sp.Phase == -1 && sp.Pub.Offset > 0 && mode.HasStream() && s.subscribed {
+						s.posOff = sp.Pub.Offset
+					}
+				}
+			}
+			s.seen = len(frames)
+			if closed, _ := s.conn.T.Closed(); closed {
+				s.subscribed, s.pending, s.dead = false, false, true
+			}
+			return ""
+		}
+		judgeAll = func() string {
+			for _, s := range subjects {
+				if m := judge(s); m != "" {
+					return m
+				}
+			}
+			return ""
+		}
+		newConn := func(s *vfC16Subject) {
+			s.connN++
+			name := fmt.Sprintf("s%d.%d", s.idx, s.connN)
+			s.conn = w.NewConn(vfConnCfg{Name: name, User: "u", Proto: s.cfg.Proto})
+			s.seen, s.dead, s.subscribed, s.pending = 0, false, false, false
+			s.cmdCh = map[uint32]string{}
+			byName[name] = s
+			s.conn.Connect(nil)
+		}
+		parked := func() bool { return w.Gates.Waiting("maptransition") > 0 }
+		releaseGate := func() {
+			gatePoint = ""
+			w.Gates.Disarm("maptransition")
+			for w.Gates.Release("maptransition") {
+			}
+			vfSettle()
+		}
+		// send issues one subscribe request; when the live transition parks at the armed gate the `during` writer
+		// operations run before it is released. Returns the reply frame.
+		send := func(s *vfC16Subject, req *protocol.SubscribeRequest, during []vfC16Step) (*protocol.Reply, string) {
+			id := s.conn.NextID()
+			s.cmdCh[id] = ch
+			conn := s.conn
+			go conn.Cmd(&protocol.Command{Id: id, Subscribe: req})
+			vfSettle()
+			if parked() {
+				out.label("live_transition_parked_" + gatePoint)
+				for _, op := range during {
+					if m := write(op); m != "" {
+						return nil, m
+					}
+				}
+				releaseGate()
+			}
+			for _, f := range conn.Frames() {
+				if f.Reply != nil && f.Reply.Id == id {
+					return f.Reply, ""
+				}
+			}
+			return nil, ""
+		}
+		countRange := func(s *vfC16Subject, path string, lo, hi uint64, from int) {
+			seen := map[*vfC16Rec]bool{}
+			for i := range log {
+				r := &log[i]
+				if (r.Offset > lo && r.Offset <= hi && r.Offset < 1000 && mode.HasStream()) || (from >= 0 && i >= from && r.Fault != 3) {
+					if !seen[r] {
+						seen[r] = true
+						s.count(path, r.Tags)
+					}
+				}
+			}
+		}
+		handshake := func(s *vfC16Subject, st vfC16Step) string {
+			if s.conn == nil || s.dead {
+				newConn(s)
+			}
+			hsActive, hsStart = s.idx, len(log)
+			defer func() { hsActive = -1 }()
+			tf := s.cfg.ClientTF.Proto()
+			join := st.Join
+			if !mode.HasStream() || !s.hasPos {
+				join = 0
+			}
+			var off uint64
+			if join != 0 {
+				off = s.posOff
+				if st.OffPick >= 0 {
+					off = uint64(st.OffPick) % (s.posOff + 1)
+				}
+			}
+			var req *protocol.SubscribeRequest
+			switch join {
+			case 0:
+				req = &protocol.SubscribeRequest{Channel: ch, Type: int32(SubscriptionTypeMap), Phase: MapPhaseState, Limit: int32(st.Limit), Tf: tf}
+			case 1:
+				req = &protocol.SubscribeRequest{Channel: ch, Type: int32(SubscriptionTypeMap), Phase: MapPhaseStream, Limit: int32(st.Limit), Tf: tf,
+					Recover: true, Offset: off, Epoch: s.posEpoch}
+			default:
+				req = &protocol.SubscribeRequest{Channel: ch, Type: int32(SubscriptionTypeMap), Phase: MapPhaseLive, Tf: tf,
+					Recover: true, Offset: off, Epoch: s.posEpoch}
+			}
+			out.label(fmt.Sprintf("map_join_kind_%d", join))
+			if st.GateAt != 0 {
+				gatePoint = []string{"", "transition_read_before", "transition_read_after", "subscribe_after"}[st.GateAt]
+				w.Gates.Arm("maptransition", 1)
+			}
+			defer releaseGate()
+			statePages := 0
+			for round := 0; round < 14; round++ {
+				rep, m := send(s, req, st.During)
+				if m != "" {
+					return m
+				}
+				if m := judgeAll(); m != "" {
+					return m
+				}
+				if rep == nil {
+					return "" // connection closed / no reply: the handshake ended
+				}
+				if rep.Error != nil || rep.Subscribe == nil {
+					out.label(fmt.Sprintf("map_handshake_error_%d", rep.Error.GetCode()))
+					return ""
+				}
+				res := rep.Subscribe
+				// candidates of the path this reply belongs to
+				switch {
+				case res.Phase == MapPhaseState:
+					statePages++
+					if statePages == 1 {
+						for _, k := range vfC16SortedKeys(stored) {
+							s.count("map_state_pages", stored[k])
+						}
+					}
+				case res.Phase == MapPhaseStream:
+					countRange(s, "map_stream_pages", req.Offset, res.Offset, -1)
+				default:
+					path := []string{"map_recovery_join", "map_stream_to_live", "map_state_to_live"}[req.Phase]
+					if req.Phase == MapPhaseState {
+						if statePages == 0 {
+							for _, k := range vfC16SortedKeys(stored) {
+								s.count("map_state_to_live_state", stored[k])
+							}
+						}
+						if mode.HasStream() {
+							countRange(s, path, 1<<62, 0, hsStart)
+						} else {
+							countRange(s, "map_streamless_during_transition", 1<<62, 0, hsStart)
+						}
+					} else {
+						countRange(s, path, req.Offset, res.Offset, hsStart)
+					}
+				}
+				if res.Phase == MapPhaseLive {
+					s.subscribed = true
+					s.hasPos = mode.HasStream()
+					s.posOff, s.posEpoch = res.Offset, res.Epoch
+					out.label("map_live_reached")
+					return ""
+				}
+				if round < len(st.Between) {
+					for _, op := range st.Between[round] {
+						if m := write(op); m != "" {
+							return m
+						}
+					}
+					if len(st.Between[round]) > 0 {
+						out.label("writer_between_page_requests")
+					}
+				}
+				next := &protocol.SubscribeRequest{Channel: ch, Type: int32(SubscriptionTypeMap), Limit: int32(st.Limit), Offset: res.Offset, Epoch: res.Epoch}
+				if !s.cfg.TFOnce {
+					next.Tf = tf
+				}
+				if res.Phase == MapPhaseState && res.Cursor != "" {
+					next.Phase, next.Cursor = MapPhaseState, res.Cursor
+				} else {
+					next.Phase = MapPhaseStream
+				}
+				req = next
+			}
+			out.label("map_handshake_not_finished_in_14_rounds")
+			return ""
+		}
+
+		for si, st := range cs.Steps {
+			switch st.Kind {
+			case 0:
+				if m := write(st); m != "" {
+					return fmt.Sprintf("step %d (%s): %s", si, st.str(1), m)
+				}
+			case 1:
+				s := subjects[st.Conn]
+				if s.subscribed && (st.Join == 0 || !mode.HasStream()) {
+					continue
+				}
+				if s.subscribed {
+					out.label("map_resubscribe_with_recovery")
+				}
+				// (re)subscribe: a real SDK unsubscribes first (also clears the reservation of an abandoned handshake)
+				if s.conn != nil && !s.dead {
+					s.conn.Cmd(&protocol.Command{Id: s.conn.NextID(), Unsubscribe: &protocol.UnsubscribeRequest{Channel: ch}})
+					vfSettle()
+					if m := judge(s); m != "" {
+						return fmt.Sprintf("step %d (%s): %s", si, st.str(1), m)
+					}
+				}
+				if m := handshake(s, st); m != "" {
+					return fmt.Sprintf("step %d (%s): %s", si, st.str(1), m)
+				}
+			case 2:
+				s := subjects[st.Conn]
+				if !s.subscribed || s.conn == nil || s.dead {
+					continue
+				}
+				s.conn.Cmd(&protocol.Command{Id: s.conn.NextID(), Unsubscribe: &protocol.UnsubscribeRequest{Channel: ch}})
+				vfSettle()
+			case 3:
+				s := subjects[st.Conn]
+				if !s.subscribed || s.conn == nil || s.dead {
+					continue
+				}
+				s.newTF = st.NewTF
+				before := len(s.conn.Frames())
+				if s.cfg.SrvRefresh {
+					// server-side refresh: the subscription's ExpireAt (subscribe time + 2 s) passes, the periodic tick asks
+					// the OnSubRefresh handler, which extends the subscription and returns the changed filter
+					calls := s.srvRefreshCalls
+					time.Sleep(8 * time.Second)
+					vfSettle()
+					if m := judgeAll(); m != "" {
+						return fmt.Sprintf("step %d (%s): %s", si, st.str(1), m)
+					}
+					if s.srvRefreshCalls == calls || !s.subscribed {
+						out.label("map_server_side_refresh_not_due")
+						s.newTF = nil
+						continue
+					}
+					invalidated := false
+					for _, f := range s.conn.Frames()[before:] {
+						if p := f.Reply.Push; p != nil && p.Channel == ch && p.Unsubscribe != nil && p.Unsubscribe.Code == UnsubscribeCodeStateInvalidated {
+							invalidated = true
+						}
+					}
+					if vfC16SemDiff(s.serverTF, st.NewTF) && !invalidated {
+						key := "C16:server-side-sub-refresh-ignores-changed-server-tags-filter"
+						msg := fmt.Sprintf("the server-side sub refresh (subscription expired, OnSubRefresh handler called with ClientSideRefresh=false) returned a changed ServerTagsFilter (%s -> %s) for a map subscription but the subscription was not ended with unsubscribe code %d; frames: %s",
+							s.serverTF, st.NewTF, UnsubscribeCodeStateInvalidated, vfC16RenderMap(s.conn.Frames()))
+						if !isKnown(key) {
+							return fmt.Sprintf("step %d (%s): [%s] %s", si, st.str(1), key, msg)
+						}
+						out.known = append(out.known, key)
+						out.knownEx = msg
+						// the library keeps enforcing the old filter: keep judging with it
+					} else if invalidated {
+						out.label("map_server_side_refresh_invalidated_subscription")
+						s.serverTF = st.NewTF
+					}
+					s.newTF = nil
+					continue
+				}
+				id := s.conn.NextID()
+				s.conn.Cmd(&protocol.Command{Id: id, SubRefresh: &protocol.SubRefreshRequest{Channel: ch, Token: "tok"}})
+				vfSettle()
+				replied, invalidated, refused := false, false, false
+				for _, f := range s.conn.Frames()[before:] {
+					if f.Reply == nil {
+						continue
+					}
+					if f.Reply.Id == id && f.Reply.SubRefresh != nil && f.Reply.Error == nil {
+						replied = true
+					}
+					if f.Reply.Id == id && f.Reply.Error != nil {
+						refused = true
+					}
+					if p := f.Reply.Push; p != nil && p.Channel == ch && p.Unsubscribe != nil && p.Unsubscribe.Code == UnsubscribeCodeStateInvalidated {
+						invalidated = true
+					}
+					if p := f.Reply.Push; p != nil && p.Disconnect != nil {
+						refused = true
+					}
+				}
+				changed := vfC16SemDiff(s.serverTF, st.NewTF)
+				switch {
+				case refused:
+					// The subscription lost its client-side-refresh flag (paginated handshake: continuation requests rebuild
+					// SubscribeReply from the stored options without ClientSideRefresh) - the refresh never reached the handler.
+					out.label("map_sub_refresh_refused")
+				case changed && !invalidated:
+					return fmt.Sprintf("step %d (%s): the sub refresh changed the server tags filter of a map subscription from %s to %s but the subscription was not ended with unsubscribe code %d (sub refresh answered: %v); frames: %s",
+						si, st.str(1), s.serverTF, st.NewTF, UnsubscribeCodeStateInvalidated, replied, vfC16RenderMap(s.conn.Frames()))
+				default:
+					if invalidated {
+						out.label("map_sub_refresh_invalidated_subscription")
+						if changed {
+							out.nontrivial = true
+						}
+					} else {
+						out.label("map_sub_refresh_semantically_same_filter")
+					}
+					s.serverTF = st.NewTF
+				}
+			}
+			if m := judgeAll(); m != "" {
+				return fmt.Sprintf("after step %d (%s): %s", si, st.str(1), m)
+			}
+		}
+		time.Sleep(time.Second)
+		vfSettle()
+		if m := judgeAll(); m != "" {
+			return "at the end: " + m
+		}
+		for _, s := range subjects {
+			paths := []string{}
+			for p := range s.adm {
+				paths = append(paths, p)
+			}
+			sort.Strings(paths)
+			for _, p := range paths {
+				if s.adm[p] > 0 && s.exc[p] > 0 {
+					out.nontrivial = true
+					out.label("nontrivial_path_" + p)
+				}
+			}
+		}
+		if faults > 0 {
+			out.label("pubsub_fault_injected")
+		}
+		out.label(fmt.Sprintf("kind_map_mode%d", cs.MapMode))
+		_, _ = curEpoch, top
+		return ""
+	})
+}
+
+func vfC16SortedKeys(m map[string]map[string]string) []string {
+	ks := make([]string, 0, len(m))
+	for k := range m {
+		ks = append(ks, k)
+	}
+	sort.Strings(ks)
+	return ks
+}
+
+// vfC16RenderMap renders frames with map-specific detail (phase, state/publication keys).
+func vfC16RenderMap(fs []vfFrame) string {
+	parts := make([]string, 0, len(fs))
+	pubs := func(ps []*protocol.Publication) string {
+		x := make([]string, len(ps))
+		for i, p := range ps {
+			rm := ""
+			if p.Removed {
+				rm = " removed"
+			}
+			x[i] = fmt.Sprintf("%s@%d%s %s", p.Key, p.Offset, rm, p.Data)
+		}
+		return "[" + strings.Join(x, ", ") + "]"
+	}
+	for _, f := range fs {
+		r := f.Reply
+		switch {
+		case r == nil:
+			parts = append(parts, "<undecodable>")
+		case r.Subscribe != nil:
+			parts = append(parts, fmt.Sprintf("#%d subscribe{phase=%d off=%d cursor=%q recovered=%v state=%s pubs=%s}", r.Id, r.Subscribe.Phase, r.Subscribe.Offset,
+				r.Subscribe.Cursor, r.Subscribe.Recovered, pubs(r.Subscribe.State), pubs(r.Subscribe.Publications)))
+		case r.Push != nil && r.Push.Pub != nil:
+			parts = append(parts, "push.pub"+pubs([]*protocol.Publication{r.Push.Pub}))
+		default:
+			parts = append(parts, vfRenderReply(r))
+		}
+	}
+	return strings.Join(parts, " | ")
+}
 
 func TestVF_C16(t *testing.T) {
 	vfCheck(t, "C16", func(rt *rapid.T, c *vfCase) string {
 		var cs vfC16Case
-		cs = vfC16GenStream(rt)
+		isMap := rapid.IntRange(0, 9).Draw(rt, "caseKind") >= 4
+		if isMap {
+			cs = vfC16GenMap(rt)
+		} else {
+			cs = vfC16GenStream(rt)
+		}
 		c.Describe(cs.String())
 		out := &vfC16Out{}
-		msg := vfC16RunStream(t, cs, out, c.IsKnown)
+		var msg string
+		if isMap {
+			msg = vfC16RunMap(t, cs, out, c.IsKnown)
+		} else {
+			msg = vfC16RunStream(t, cs, out, c.IsKnown)
+		}
 		seen := map[string]bool{}
 		for _, l := range out.labels {
 			if !seen[l] {
